@@ -530,7 +530,7 @@ def malformed_case(case, ctx, rnd, mech, res):
 # MANIFEST-BEGIN
 MANIFEST = {
     'technique': 'fault-injection monitor: unsupported option combinations derived from the live backend classes and single-fault mutations of generated valid models; oracle observes exception / warning / return of each request',
-    'level_text': 'The full backend x solver x vectorize x delay matrix (unsupported derived from SUPPORTED_SOLVERS, SUPPORTS_* flags and _validate_backend_args of the live classes) and single-fault mutations of generated valid models (each path component of edges, outputs, inputs and update_var keys misspelt, declared variables removed, reserved names, two outputs, cyclic node, node-level values for missing operators/variables/nodes; invalid outputs alone and next to valid ones; reserved names with and without node-level values) are submitted; an unsupported or malformed request must raise before anything is returned, inputs and parameter updates to non-existent variables must at least warn. Ring-buffer requests come in several shapes (scalar and matrix edges, next to gamma-kernel or undelayed connections, either declaration order). Invalid outputs are also requested next to valid ones, reserved names also carry node-level values, and notices must still reach the user under the default warning filters after an earlier valid run in the same process. Also: PopulationTemplate params and edge_values addressed to a variable / edge that does not exist (at least a warning). Held on observed requests only.',
+    'level_text': 'The full backend x solver x vectorize x delay matrix (unsupported derived from SUPPORTED_SOLVERS, SUPPORTS_* flags and _validate_backend_args of the live classes) and single-fault mutations of generated valid models (each path component of edges, outputs, inputs and update_var keys misspelt, declared variables removed, reserved names, two outputs, cyclic node, node-level values for missing operators/variables/nodes; invalid outputs alone and next to valid ones; reserved names with and without node-level values) are submitted; an unsupported or malformed request must raise before anything is returned, inputs and parameter updates to non-existent variables must at least warn. Ring-buffer requests come in several shapes (scalar and matrix edges, next to gamma-kernel or undelayed connections, either declaration order). Invalid outputs are also requested next to valid ones, reserved names also carry node-level values, and notices must still reach the user under the default warning filters after an earlier valid run in the same process. Also: PopulationTemplate params and edge_values addressed to a variable / edge that does not exist (at least a warning). Unknown backend names, near-miss solver names and node paths that are longer than the hierarchy must raise. Held on observed requests only.',
     'level_note': 'The check never asserts that a supported combination succeeds. Torch / JAX / Fortran are imported inside the forked case process.',
 }
 # MANIFEST-END
